@@ -31,13 +31,17 @@ def table(tier):
 
 def cases(tier, seed):
     out = []
-    cfgs = [{}, {"step_solver": "Standard", "newton": "Full"}]
+    cfgs = [{}, {"step_solver": "Standard", "newton": "Full"}, {"step_solver": "Asymmetric"}]
     if tier == "thorough":
         cfgs += [{"step_solver": "Asymmetric", "control": "Exact"}, {"step_solver": "Extended", "newton": "ActiveSet", "penalty": "LagrangianFilter"}]
     for (rows, obj, vk, fmt) in table(tier):
         for si in (0, 1, 4) if tier == "quick" else (0, 1, 2, 3, 4, 5):
             for cfg in cfgs:
                 out.append({"rows": [list(r) for r in rows], "obj": obj, "vk": vk, "fmt": fmt, "si": si, "cfg": cfg})
+    for (rows, obj, vk, fmt) in table(tier)[::4]:
+        out.append({"rows": [list(r) for r in rows], "obj": obj, "vk": vk, "fmt": fmt, "si": 0, "cfg": {}, "zero_nominal": True})
+        out.append({"rows": [list(r) for r in rows], "obj": obj, "vk": vk, "fmt": fmt, "si": 0, "cfg": {}, "huge": True})
+        out.append({"rows": [list(r) for r in rows], "obj": obj, "vk": vk, "fmt": fmt, "si": 1, "cfg": {}, "huge": True})
     return out
 
 
@@ -60,6 +64,11 @@ def one(case, policy):
     n = len(case["vk"])
     spec = S.mk(n, case["obj"], [tuple(r) for r in case["rows"]], case["vk"], fmt=case["fmt"], policy=policy)
     sc = G.scalings_of(spec, (case["si"],))[0]
+    if case.get("zero_nominal"):
+        # Nominal scaling at a point with an exactly zero component (and zero constraint value on an equality row)
+        sc = {"type": "Nominal", "at": [0.0] + list(spec["x0"][1:]), "dual": [0.0] * len(case["rows"])}
+    if case.get("huge"):
+        spec["rows"][0]["lb"], spec["rows"][0]["ub"] = -1e20, 1e30
     cfg = dict(case["cfg"]); cfg["iteration_limit"] = 40
     params = R.make_params(cfg, sc)
     user = UserProblem(spec)
@@ -103,7 +112,7 @@ def run_case(case):
         if v["sig"] not in seen:
             seen.add(v["sig"]); vs.append(v)
     return {"outcome": "untouched" if not viol else "violating",
-            "key": f"{case['rows']}|{case['obj']}|{case['vk']}|{case['fmt']}|{case['si']}|{case['cfg']}", "violations": vs, "stats": stats}
+            "key": f"{case['rows']}|{case['obj']}|{case['vk']}|{case['fmt']}|{case['si']}|{case['cfg']}|{case.get('zero_nominal')}|{case.get('huge')}", "violations": vs, "stats": stats}
 
 
 def summarize(cases_, results, tier):
